@@ -524,7 +524,11 @@ func genC03Expr(t *rapid.T) *Expr {
 	v := func() string { return rapid.SampledFrom(c03Vars).Draw(t, "var") }
 	switch rapid.IntRange(0, 12).Draw(t, "expr") {
 	case 0, 1, 2:
-		return num(rapid.SampledFrom([]string{"0", "1", "2", "3", "0.5", "7"}).Draw(t, "lit"))
+		if rapid.IntRange(0, 5).Draw(t, "negative") == 0 {
+			// (0 * -2 and 0 / -2 are -0: the value stored is the value computed, sign of zero included)
+			return neg(num(rapid.SampledFrom([]string{"1", "2", "0", "0.5"}).Draw(t, "neglit")))
+		}
+		return num(rapid.SampledFrom([]string{"0", "1", "2", "3", "0.5", "7", "010", "017", "0100", "08"}).Draw(t, "lit"))
 	case 3:
 		return boolean(rapid.Bool().Draw(t, "lit"))
 	case 4, 5:
